@@ -6,7 +6,7 @@ from .common import *
 
 # token indices (0 = op) holding hex payloads / payload lists, per op: used by the shrinker
 PAYLOAD = {"kg": [2], "mg": [3], "kmg": [3], "oligo": [3], "covrow": [6], "cgr": [2], "ocgr": [4],
-           "ofile": [10], "osched": [6], "cgrfile": [5], "ocgrfile": [7], "ctr": [6], "cov": [9, 10], "s2m": [5], "m2s": [5], "read": [], "readc": [2], "ctrfs": [4], "cli": [4, 5], "hist": [],
+           "ofile": [10], "osched": [6], "cgrfile": [5], "ocgrfile": [7], "ctr": [6], "cov": [9, 10], "s2m": [5], "m2s": [5], "read": [], "readc": [2], "ctrfs": [4], "covfs": [7], "cli": [4, 5], "hist": [],
            "py:kg": [2], "py:mg": [3], "py:oligo": [3], "py:cgr": [2], "hooks": [], "csched": [], "msched": []}
 
 BASE_TRUSTED = [
@@ -25,6 +25,7 @@ def valid_case(case):
     cont = {"ofile": 8, "cgrfile": 4, "ocgrfile": 6, "ctr": 5, "cov": 8, "s2m": 4, "m2s": 4, "cli": 3}.get(p[0])
     recs = {"ofile": 10, "cgrfile": 5, "ocgrfile": 7, "ctr": 6, "cov": 9, "s2m": 5, "m2s": 5, "cli": 4}.get(p[0])
     if p[0] == "hooks": return valid_case(" ".join(p[1:]))
+    if p[0] == "covfs": return len(p) == 8 and ctrfs_ok(sum(len(x) // 2 for x in p[7].split(",") if x not in ("-", "_")), int(p[5]))
     if p[0] == "ctrfs": return len(p) == 5 and ctrfs_ok(sum(len(x) // 2 for x in p[4].split(",") if x not in ("-", "_")), int(p[2]))
     if p[0] == "hist":
         return all(valid_case("cli " + " ".join(p[i:i + 5])) for i in range(2, len(p), 5))
@@ -50,6 +51,18 @@ def gen_ctrfs(r, n):
         limit = r.pick([0, 1, 3, 5, 10, 20, 50, 1000, 10 ** 6])
         if not ctrfs_ok(sum(len(x) for x in recs), limit): continue
         cases.append("ctrfs %d %d %d %s" % (k, limit, r.below(2), hxlist(recs)))
+    return cases
+
+
+def gen_covfs(r, n):
+    """the files of `cov`: count + merge into the output directory, counts table read back, vectors created"""
+    cases = []
+    while len(cases) < n:
+        k = r.pick([1, 2, 3, 7])
+        recs = gen_records(r, k, nmax=8, maxlen=40)
+        limit = r.pick([0, 1, 3, 5, 10, 20, 50, 1000, 10 ** 6])
+        if not ctrfs_ok(sum(len(x) for x in recs), limit): continue
+        cases.append("covfs %d %d %d %d %d %d %s" % (k, r.pick([1, 2, 5]), r.pick([1, 2, 4]), r.below(2), limit, r.below(2), hxlist(recs)))
     return cases
 
 
@@ -339,7 +352,8 @@ def gen_C08_rows(r, n):
     return cases
 
 def gen_C08(r, tier):
-    return gen_C08_rows(r, {"quick": 4000, "thorough": 80000}[tier]) + gen_C08_files(r, {"quick": 250, "thorough": 4000}[tier])
+    return gen_C08_rows(r, {"quick": 4000, "thorough": 80000}[tier]) + gen_C08_files(r, {"quick": 250, "thorough": 4000}[tier]) \
+        + gen_covfs(r, {"quick": 40, "thorough": 400}[tier])
 
 
 # ---------------------------------------------------------------- C11 / C12 (record level)
@@ -967,6 +981,7 @@ def gen_C17(r, tier):
             runs.append("%s %s %s %s %s" % (sub, st(d), cont, hxlist(recs), hxlist(alt) if alt is not None else "_"))
         cases.append("hist %d %s" % (r.below(2), " ".join(runs)))
     cases += gen_ctrfs(r, {"quick": 60, "thorough": 600}[tier])
+    cases += gen_covfs(r, {"quick": 40, "thorough": 400}[tier])
     return cases
 
 
@@ -1155,8 +1170,8 @@ PROPS = {
                 nontrivial=lambda c, o: o.startswith("exit=0|") or (not c.startswith("cli") and not o.startswith(("PANIC", "CRASH", "NOT-RUN"))),
                 assumptions=["runtime aborts and hangs not caused by the modelled logic (allocation failure, poisoned locks) are outside the model"]),
     "C17": dict(gen=gen_C17, needs=["harness", "cli"], to_spec=to_spec_cli, sample_filter=lambda c: len(c) < 600 and " cov " not in c and " ctr " not in c, sample_limit={"quick": 16, "thorough": 60}, sample_maxlen=900,
-                rule="histories of two or three accepted runs of one subcommand (different inputs, k, thread counts, presets) sharing one output location, half of them with stale temp chunk files of a bigger run (20 partitions x 4 chunks), a stale kmers.counts and a longer stale kmers.vectors planted before the last run; the result files after the last run are compared with the model/spec of the last run alone (i.e. a fresh location); then `ctrfs`: the counter (one worker, budgets 0..10^6 k-mers per chunk pass) in a directory that is empty or holds those stale files - the partition and chunk counts, every file of the directory after count() and every file after merge(true) are compared with the file-level model of the counter (Model/CtrFs.v: names, text, read-back, removal) and with the spec (stale files that are not this run's temp files untouched, own temp files gone, counts = the specified table); non-trivial = output produced",
-                nontrivial=lambda c, o: (o.startswith("exit=0|") and not o.endswith(("NOOUT", "|"))) or (c.startswith("ctrfs ") and "counts=" in o and not o.endswith("counts=") and not o.endswith("counts=;vectors")),
+                rule="histories of two or three accepted runs of one subcommand (different inputs, k, thread counts, presets) sharing one output location, half of them with stale temp chunk files of a bigger run (20 partitions x 4 chunks), a stale kmers.counts and a longer stale kmers.vectors planted before the last run; the result files after the last run are compared with the model/spec of the last run alone (i.e. a fresh location); then `ctrfs` / `covfs`: the counter and `cov` (one worker, budgets 0..10^6 k-mers per chunk pass) in a directory that is empty or holds those stale files - the partition and chunk counts, every file of the directory after count() and every file after merge(true) are compared with the file-level model of the counter (Model/CtrFs.v: names, text, read-back, removal) and with the spec (stale files that are not this run's temp files untouched, own temp files gone, counts = the specified table, vectors = the specified rows); non-trivial = output produced",
+                nontrivial=lambda c, o: (o.startswith("exit=0|") and not o.endswith(("NOOUT", "|"))) or (c.startswith(("ctrfs ", "covfs ")) and "counts=" in o and not o.endswith("counts=") and not o.endswith("counts=;vectors")),
                 assumptions=["File::create / truncate + set_len / unlink behave as POSIX says (OS semantics are not modelled)"]),
     "C18": dict(gen=gen_C18, needs=["harness"], extra=extra_C18, to_spec=to_spec_C18,
                 rule="seeded (w, m, sequence) with m <= w <= 31 as for C09; each sequence goes through the k-mer+minimiser iterator, the plain minimiser iterator and the k-mer iterator; non-trivial = at least one run; relations checked on the implementation's outputs: identical runs, k-mer lists concatenate to the canonical w-mers",
